@@ -193,5 +193,9 @@ pub fn finish(mut o: Outcome, out_path: Option<&Path>) -> i32 {
         let _ = std::fs::create_dir_all(d);
     }
     std::fs::write(&path, serde_json::to_string_pretty(&ev).unwrap()).expect("write evidence");
+    if let Some(((_, clause), f)) = o.collector.found.iter().find(|((p, _), _)| p == "MACHINERY") {
+        eprintln!("MACHINERY ERROR: {clause}: {}", f.v.detail);
+        return 2;
+    }
     if violations > 0 { 1 } else { 0 }
 }
